@@ -355,6 +355,67 @@ int main(int argc, char** argv) {
                 out << " " << id << ":" << hx(rawv(e.second));
             }
             out << " ]";
+        } else if (op == "iopen" || op == "inext" || op == "iclose") {
+            // a cursor kept across operations (the script may modify the tree between its steps)
+            static iscan_context* cur = nullptr;
+            static void* cval = nullptr;
+            static std::string cstore;
+            static bool cearly = false;
+            static status clast = status::OK_SCAN_END;
+            static border_node* watch_bn = nullptr;       // the border under the cursor after the last step
+            static node_version64_body watch_v{};
+            static std::uint64_t watch_perm = 0;
+            auto dummy = [](node_version64*, node_version64_body) { return false; };
+            auto snapshot = [&]() {
+                watch_bn = nullptr;
+                if (cur != nullptr && clast == status::OK && !cur->stack_empty()) {
+                    watch_bn = cur->stack_top().bn;
+                    watch_v = watch_bn->get_version();
+                    watch_perm = watch_bn->get_permutation().get_body();
+                }
+            };
+            auto show = [&](status rc) {
+                out << op << " " << rc;
+                if (rc == status::OK) {
+                    std::string fk = cur->full_key();
+                    out << " k=" << tohex(fk);
+                    std::pair<char*, std::size_t> g{};
+                    status gs = get<char>(cstore, fk, g);
+                    out << " v=" << ((gs == status::OK && static_cast<void*>(g.first) == cval) ? "cur" : "old");
+                }
+            };
+            if (op == "iopen") {
+                if (cur != nullptr) iscan_close(cur);
+                cstore = unhex(tk());
+                std::string ls, rs;
+                std::string lt = tk();
+                scan_endpoint le = ep(tk());
+                std::string rt = tk();
+                scan_endpoint re = ep(tk());
+                bool rtl = tk() == "1";
+                cearly = tk() == "1";
+                static std::string lks, rks;
+                lks = unhex(lt);
+                rks = unhex(rt);
+                clast = iscan_open(cstore, lks, le, rks, re, rtl, cearly, cur, cval, dummy);
+                show(clast);
+                snapshot();
+            } else if (op == "inext") {
+                if (cur == nullptr || clast != status::OK) {
+                    out << "inext CLOSED";
+                } else {
+                    bool changed = watch_bn != nullptr && (watch_bn->get_version() != watch_v ||
+                                                           watch_bn->get_permutation().get_body() != watch_perm);
+                    clast = iscan_next(cur, cval, dummy);
+                    show(clast);
+                    out << " exp_abort=" << (cearly && changed);
+                    snapshot();
+                }
+            } else {
+                if (cur != nullptr) iscan_close(cur);
+                cur = nullptr;
+                out << "iclose OK";
+            }
         } else if (op == "dump") {
             std::string st = unhex(tk());
             tree_instance* ti{};
